@@ -63,8 +63,14 @@ def run(chk):
                 "PROGRAM __DEC__ IN a , b DO x0 := a END x := RUN __DEC__ WITH x , 3 END ; y := x - 1",
                 "PROGRAM f IN a DO x0 := RUN __INC__ WITH a , 1 END END x := RUN f WITH 2 END"):
         lists.append(parse.tokenize(src))
-    for n in (3, 40) + ((1025,) if chk.thorough else ()):
+    for n in (3, 40):
         lists.append(parse.tokenize(" ; ".join(["x := x + 1"] * n)))
+    if chk.thorough:
+        # the long instance of the lemma is decided by TheoParse as well, but compiled only in long_sources (where the known finding lives)
+        lv = parse.decide(chk, [parse.tokenize(" ; ".join(["x := x + 1"] * 1025))], name="lemma1025")
+        if not lv[1]["acc"]:
+            from common import Broken
+            raise Broken("TheoParse does not accept 1025 assignments joined by ';' - the lemma behind long_sources is wrong")
     verdict = parse.decide(chk, lists)
     total += parse.replay_decided(chk, th, lists, verdict, "c04:mutants", chk.seed + 3)
     # long flat sources: n copies of 'x := x + 1' joined by ';' form a sentence for every n (P -> STMT MOREP, MOREP -> ; P). TheoParse
